@@ -150,7 +150,7 @@ func check(args []string) int {
 		if *tier == "thorough" {
 			*secs = 1500
 		} else {
-			*secs = 100
+			*secs = 160
 		}
 	}
 	if *prof != "" {
